@@ -32,6 +32,7 @@ type OblOut struct {
 	SMTFile  string            `json:"smt_file,omitempty"`
 	BySolver map[string]string `json:"by_solver,omitempty"`
 	Bounded  string            `json:"bounded,omitempty"`
+	Parts    int               `json:"parts,omitempty"` // number of per-edge queries merged into this obligation
 }
 
 type Output struct {
@@ -297,6 +298,34 @@ func cmdVerify(argv []string) {
 	}
 	wg.Wait()
 	res.SolveS = time.Since(t1).Seconds()
+	// parts of a split check are reported as one obligation: discharged iff every part is
+	{
+		var merged []*OblOut
+		first := map[string]*OblOut{}
+		for i, oo := range outs {
+			if jobs[i].o.Part == 0 {
+				merged = append(merged, oo)
+				continue
+			}
+			f := first[oo.Name]
+			if f == nil {
+				first[oo.Name] = oo
+				oo.Parts = 1
+				merged = append(merged, oo)
+				continue
+			}
+			f.Parts++
+			f.Seconds += oo.Seconds
+			if !strings.Contains(f.Solver, oo.Solver) {
+				f.Solver += "+" + oo.Solver
+			}
+			rank := map[string]int{"discharged": 0, "undecided": 1, "failed": 2}
+			if rank[oo.Status] > rank[f.Status] {
+				f.Status, f.Answer, f.Model, f.Output, f.SMTFile = oo.Status, oo.Answer, oo.Model, oo.Output, oo.SMTFile
+			}
+		}
+		outs = merged
+	}
 	res.Obligations = append(res.Obligations, outs...)
 	for n := range ex.notes {
 		res.Notes = append(res.Notes, n)
